@@ -66,8 +66,7 @@ def esi1(ctx, prog, cfg):
     for ty in ("Iter<T>", "IterMut<T>"):
         sfx = "_mut" if ty.startswith("IterMut") else ""
         mm(ctx, "ESI1", prog, "<%s as ExactSizeIterator>::len" % ty,
-           [r"call <\[T\]>::len\(\(\*self\)\.right\)", r"call <\[T\]>::len\(\(\*self\)\.left\)",
-            r"return Add\(<\[T\]>::len\(\(\*self\)\.right\), <\[T\]>::len\(\(\*self\)\.left\)\)"], cfg, "len = right.len() + left.len()",
+           [r"return Add\(<\[T\]>::len\(\(\*self\)\.left\), <\[T\]>::len\(\(\*self\)\.right\)\)"], cfg, "len = right.len() + left.len()",
            "`len` of %s does not count both remaining slices: it no longer equals the number of elements not yet produced" % ty)
         ln = r"<%s as ExactSizeIterator>::len\(self\)" % ty.replace("<", "<").replace(">", ">")
         mm(ctx, "ESI1", prog, "<%s as Iterator>::size_hint" % ty,
